@@ -578,7 +578,10 @@ func (fv *FuncVerifier) evalUnary(e *ast.UnaryExpr, st *State) Term {
 		}
 		reject("address-of at %s", fv.pos(e.Pos()))
 	case token.ARROW:
-		reject("channel receive at %s", fv.pos(e.Pos()))
+		if fv.specMode > 0 || fv.termMode {
+			reject("channel receive in a specification at %s", fv.pos(e.Pos()))
+		}
+		return fv.receive(fv.typeOf(e.X), st)
 	}
 	reject("unary %s at %s", e.Op, fv.pos(e.Pos()))
 	return Term{}
